@@ -112,6 +112,13 @@ STRUCTURED = [
     [{"tags": [f"t{i}" for i in range(14)]}, {"tags": ["t14", "zz"]}],
     [{"s": "a"}, {"s": "b"}, {"s": "a,b"}],
     [{"s": "b,a"}, {"s": "a"}, {"s": "b"}],
+    # sibling objects that are merged into one model in the second pass, with differently shaped unions on the two sides
+    [{"first": {"id": 1, "x": [1]}, "second": {"id": 1, "x": []}}, {"first": {"id": 2, "x": [2]}, "second": {"id": 2, "x": "a string that is long enough"}},
+     {"first": {"id": 3, "x": [3]}, "second": {"id": 3}}],
+    [{"first": {"id": 1, "x": [1.5]}, "second": {"id": 1, "x": []}}, {"first": {"id": 2, "x": [2.5]}, "second": {"id": 2, "x": True}},
+     {"first": {"id": 3, "x": [3.5]}, "second": {"id": 3, "x": None}}],
+    [{"first": {"id": 1, "x": 1}, "second": {"id": 1, "x": "s"}}, {"first": {"id": 2, "x": 2.5}, "second": {"id": 2}}, {"first": {"id": 3, "x": 3}, "second": {"id": 3, "x": None}}],
+    [{"owner": {"id": 1, "name": "n", "rank": 5}}, {"editors": [{"id": 2, "name": "m", "rank": "high"}, {"id": 3, "name": "k"}]}],
     [{"s": ["a,b"]}, {"s": ["a", "b"]}, {"s": 1}],
     [{"s": ["a", "b"]}, {"s": ["a,b"]}, {"s": None}],
     [{"s": "..."}, {"s": "x" * 25}],
@@ -161,6 +168,19 @@ def shared_state_snapshot():
     snap = {}
     for name, g in GENERATORS.items():
         snap["style:" + name] = copy.deepcopy({getattr(k, "__name__", str(k)): v for k, v in g.default_types_style.items()})
+    # every class-level container of every generator class (by reflection: also ones a later change introduces)
+    import json_to_models.models.base as _mb
+    seen_cls = set()
+    for g in GENERATORS.values():
+        for c in g.__mro__:
+            if c.__module__.startswith("json_to_models") and c not in seen_cls:
+                seen_cls.add(c)
+                for k, v in vars(c).items():
+                    if isinstance(v, (list, dict, set, tuple)) and not k.startswith("__") and k != "default_types_style":
+                        try:
+                            snap[f"class:{c.__name__}.{k}"] = repr(copy.deepcopy(v))
+                        except Exception:
+                            snap[f"class:{c.__name__}.{k}"] = repr(v)
     snap["registry.types"] = [t.__name__ for t in default_registry.types]
     snap["registry.replaces"] = sorted((a.__name__, b.__name__) for a, b in default_registry.replaces)
     snap["context"] = repr(getattr(AbsoluteModelRef.Context.data, "context", None))
